@@ -128,6 +128,105 @@ def gen_history(rng, tier, states=(0, 1, 1, 0, 1, 2, 255), budget=1_000_000, sma
     return enc_ops(tab, sb, ops), ('80x25' if (w, h) == (80, 25) else '1x1' if (w, h) == (1, 1) else '1xN' if w == 1 else 'Nx1' if h == 1 else '2x2' if (w, h) == (2, 2) else 'random')
 
 
+# dimensions around every plausible narrow-integer boundary of a column / row / tab count
+EDGE = [63, 64, 65, 127, 128, 129, 255, 256, 257]
+TAB_EDGE = [85, 86, 87, 127, 128, 129, 254, 255]
+# (w, h, sb): cell counts around 2^16 (65535 / 65536 / 65537) and byte sizes around 2^16 (21845 / 21846 cells)
+BIG = [(255, 257, 0), (257, 255, 0), (256, 256, 0), (128, 512, 0), (256, 255, 1), (512, 127, 1), (65537, 1, 0), (1, 65537, 0),
+       (1, 65535, 1), (65536, 1, 0), (257, 256, 0), (300, 250, 0), (145, 150, 1), (146, 150, 0), (21845, 1, 0), (2, 10923, 0)]
+
+
+def printable(rng, n):
+    return [rng.randrange(33, 127) for _ in range(n)]
+
+
+def gen_boundary(rng, kind=None, budget=12_000_000):
+    """histories on geometries that cross narrow-integer boundaries (columns, rows, tab width, cell count,
+    buffer bytes), with content stored in the LAST columns / rows (reached with cursor moves so that the
+    histories stay short), tabs that fit in the line, and line feeds that exhaust the scrollback and scroll.
+    Few but large; cost model as in gen_history."""
+    kind = kind or rng.choice(['wide', 'wide', 'tall', 'tall', 'tab', 'tab', 'big'])
+    tab = rng.choice([0, 1, 4, 8])
+    if kind == 'wide':
+        w, h, sb = rng.choice(EDGE + [300, 511, 512, 513]), rng.randrange(1, 5), rng.choice([0, 0, 1, 2])
+    elif kind == 'tall':
+        w, h, sb = rng.choice([1, 2, 3, 5]), rng.choice(EDGE + [300]), rng.choice([0, 0, 1, 2])
+    elif kind == 'tab':
+        tab = rng.choice(TAB_EDGE)
+        w = rng.choice([tab + 1, tab + 2, tab + 3, tab + rng.randrange(1, 60), 2 * tab + 3, 257, 300])
+        h, sb = rng.randrange(1, 4), rng.choice([0, 0, 1])
+    else:
+        w, h, sb = rng.choice(BIG)
+    fg, bg = rng.choice([(7, 0), (7, 0), (rng.randrange(256), rng.randrange(256))])
+    size = w * (h + sb) * 3
+    # cost model of the list-based executable model, in list steps (~25 ns): three stores per byte, each a pass
+    # over half the buffer; a scroll is a few passes; the observation of an op checksums the buffer
+    per_byte = 3 * size // 2 + 50
+    per_scroll = 8 * size
+    per_op = 30 * size + 1000
+    redraw = 3 * w * h * size // 2
+    if kind == 'big':
+        budget = max(budget, 90_000_000)
+    left = budget - per_op
+    ops = [(0, w, h, fg, bg)]
+
+    def afford(nbytes, nscroll, nops):
+        nonlocal left
+        c = nbytes * per_byte + nscroll * per_scroll + nops * per_op
+        if c > left:
+            return False
+        left -= c
+        return True
+
+    def near_end(n):      # a coordinate in the last few positions of 1..n (sometimes anywhere)
+        return max(1, n - rng.choice([0, 0, 1, 2, 3, rng.randrange(0, n)]))
+
+    if rng.random() < 0.5 and redraw + per_op <= left // 3:
+        left -= redraw + per_op
+        ops.append((4, 1))
+    for _ in range(rng.randrange(4, 12)):
+        r = rng.random()
+        if r < 0.30:
+            # store a few bytes in the last columns of a (mostly late) row: wraps into the next row / scrolls
+            n = rng.randrange(1, 7)
+            if afford(n, n, 2):
+                ops += [(3, near_end(w), near_end(h)), (1, printable(rng, n))]
+        elif r < 0.45 and w * (h + sb) <= 4000:
+            # whole lines of printable bytes: every column of every viewport line gets content
+            n = min(w * rng.randrange(1, h + sb + 2) + rng.randrange(0, w + 1), max(1, (left - per_op) // (per_byte + per_scroll // w + 1)))
+            if n >= 1 and afford(n, n // w + 1, 1):
+                ops.append((1, printable(rng, n)))
+        elif r < 0.70:
+            # line feeds from a late row: run through the scrollback, then scroll
+            n = rng.choice([1, 2, sb + 1, sb + 2, sb + 3])
+            if h + sb <= 600 and rng.random() < 0.3:
+                n = h + sb + rng.randrange(0, 3)
+            n = max(1, min(n, (left - 2 * per_op) // per_scroll))
+            if afford(0, n, 2):
+                if rng.random() < 0.7:
+                    ops.append((3, rng.choice([1, near_end(w)]), near_end(h)))
+                ops.append((1, [10] * n))
+        elif r < 0.88:
+            # a tab (that often fits in the line) followed by bytes that must land right after it
+            x = rng.choice([1, 2, 3, max(1, w - tab), max(1, w - tab - 1), max(1, w - tab + 1), rng.randrange(1, w + 1)])
+            bs = printable(rng, rng.randrange(0, 3)) + [9] + printable(rng, rng.randrange(1, 4))
+            if rng.random() < 0.3:
+                bs += [9] + printable(rng, 1)
+            if afford(len(bs) + bs.count(9) * tab, 2, 2):
+                ops += [(3, x, near_end(h)), (1, bs)]
+        elif r < 0.94:
+            if afford(4, 0, 2):
+                ops += [(3, near_end(w), near_end(h)), (1, [8, rng.randrange(33, 127), 8, 8])]
+        else:
+            st = rng.choice([0, 1])
+            if st == 0 and afford(0, 0, 1):
+                ops.append((4, 0))
+            elif st == 1 and redraw + per_op <= left:
+                left -= redraw + per_op
+                ops.append((4, 1))
+    return enc_ops(tab, sb, ops), 'edge:' + kind
+
+
 def gen_outside(rng):
     """histories outside the property's quantifier: agreement between model and code only"""
     kind = rng.choice(['preattach', 'reattach', 'zero', 'wrap-sb', 'mod3'])
@@ -170,6 +269,10 @@ def soak(spec, ctx, cases):
             continue
         seen.add(sig)
         nums = cases[i][0]
+        try:
+            nums = flow._shrink(spec, wd, nums, sig)
+        except Exception as ex:
+            vlib.log('soak shrink failed', ex)
         res.append((sig, msg, dict(case=['%x' % v for v in nums], explain=spec.explain(nums), note=cases[i][1],
                                    replay='bin/check %s --replay <file with top-level "case">' % spec.prop)))
     if rc != 0 and not mons:
@@ -204,6 +307,10 @@ class C17(flow.Spec):
                 out.append(gen_outside(rng))
             else:
                 out.append(gen_history(rng, tier, small=(rng.random() < 0.35)))
+        # geometries across narrow-integer boundaries: few but large
+        m = {'quick': 70, 'thorough': 1500, 'search': 200}[tier]
+        for i in range(m):
+            out.append(gen_boundary(rng, kind=['wide', 'tall', 'tab', 'tab', 'wide', 'tall'][i % 6] if i % 10 else 'big'))
         return out
 
     def classify(self, nums, note):
@@ -217,6 +324,9 @@ class C17(flow.Spec):
         cases = []
         for i in range(n):
             nums, note = gen_history(rng, ctx['tier'], budget=400_000_000 if i % 3 else 40_000_000, small=False)
+            cases.append((nums, 'soak:' + note))
+        for i in range(n // 3):
+            nums, note = gen_boundary(rng, budget=3_000_000_000)
             cases.append((nums, 'soak:' + note))
         return soak(self, ctx, cases)
 
